@@ -168,7 +168,16 @@ def rule_d(ctx):
     c01.rule_i(ctx)
 
 
+def rule_e(ctx):
+    """shared clause group: how a due action gets executed (C10.a/d, C07.b/c)"""
+    from . import c07, c10
+    c10.rule_a(ctx)
+    c10.rule_d(ctx)
+    c07.rule_b(ctx)
+    c07.rule_c(ctx)
+
 RULES = [
+    ("C08.e", "an accepted request is executed once per occurrence: pull helper, chaining, SeqFuture", rule_e),
     ("C08.a", "time read + insert under the queue lock", rule_a),
     ("C08.b", "insert guarded by deadline > now; reject has no effect", rule_b),
     ("C08.c", "null period rejected for every periodic action entering the queue", rule_c),
